@@ -692,6 +692,20 @@ def run(ctx):
             if v is not None:
                 ctx.report({"kind": "reload", "first": a, "second": b, "files": [RELOAD_FILES[a], RELOAD_FILES[b]], "why": v[2]}, None, what="reload: %s" % v[2])
         total["reload_pairs"] = len(pairs)
+        # ---- names that other parts of the compiler rewrite (dep_, IMPORTED_, undocumented markers) and names that only differ
+        #      by such a marker, by case or by an underscore: every line is loaded under exactly its own name
+        special = ["dep_A2_add", "IMPORTED_A2_add", "undocumented_A2_add", "A2_add_undocumented", "A2_add", "a2_add", "A2_ADD", "A2__add", "_A2_add", "A2_add_", "dep_dep_A2_add", "IMPORTED_dep_A2_add", "A2_add_dep_", "xdep_A2_add"]
+        nn = 0
+        for i, n1 in enumerate(special):
+            for n2 in special[i + 1:] + [None]:
+                lines = ["insn(%s, {x = %d;})\n" % (n1, i)] + (["insn(%s, {y = %d;})\n" % (n2, i + 100)] if n2 else [])
+                for order in (lines, lines[::-1]):
+                    t = HDR + FIRST + "".join(order) + LAST
+                    nn += 1
+                    v = check_load(t)
+                    if v is not None:
+                        ctx.report({"kind": "load", "text": t, "variant": "marker-names", "why": v[0]}, v[1], what="load: names %s / %s: %s" % (n1, n2, v[0]))
+        total["marker_name_files"] = nn
         # ---- files that are not text in the loader's encoding
         scratch_on()
         nb = loaded = 0
